@@ -103,6 +103,21 @@ def quick_family():
     return out + curated()
 
 
+def rich_family():
+    """quick family plus the remaining alignment combinations of the neighbours (cheap value-symbolic checks use it)"""
+    out = quick_family()
+    seen = set(s.name for s in out)
+    for k in sorted(KINDS):
+        for pre, post in ((None, u8), (u8, u8), (u8, u32), (u16, u16), (None, None)):
+            if post is not None and is_last_only(k):
+                continue
+            s = sandwich(k, pre, post)
+            if s.name not in seen:
+                seen.add(s.name)
+                out.append(s)
+    return out
+
+
 def thorough_family():
     out = []
     seen = set()
@@ -133,7 +148,7 @@ def thorough_family():
 
 
 def family(tier):
-    return quick_family() if tier == 'quick' else thorough_family()
+    return {'quick': quick_family, 'rich': rich_family, 'thorough': thorough_family}[tier]()
 
 
 # ---------------------------------------------------------------- predicates
